@@ -170,6 +170,9 @@ func (g *gen) one(x exchange) {
 		tag := ""
 		if x.Live {
 			tag = ":live-opened-" + x.Opened.name()
+			if strings.Contains(x.LiveKey, "clone") {
+				tag = ":clone-of-a-used-client"
+			}
 		}
 		if x.Via != "" {
 			tag = ":" + x.Via
@@ -389,5 +392,9 @@ func (g *gen) run() {
 	g.runH3Stream()
 	// N. trailers
 	g.runTrailers()
+	// O. clones
+	g.runClones()
+	// P. zstd windows
+	g.runZstdWindows()
 	g.flushSeq(len(g.seqCases))
 }
